@@ -1,5 +1,6 @@
 import PqModel.VariantLemmas
 import PqModel.VariantShredLemmas
+import PqModel.VariantLevelsLemmas
 
 /-!
 # C19 — variant values survive encoding
@@ -166,6 +167,24 @@ theorem ofCol_toCol (t : PType) (p : Prim) (c : ColVal) (h : toCol t p = some c)
 example : toCol (.dec16 38 2) (.dec16 2 (BitVec.ofInt 128 (-12345))) ≠ none := by decide
 example : toCol .int8 (.int8 0x80#8) = some (.i32 0xFFFFFF80#32) := by decide
 
+/-- **C19 (foreign typed_value encodings).** A DECIMAL typed_value leaf written by another writer
+    is a big-endian two's complement integer of ANY length `1 ≤ n ≤ 16` (minimal-length BYTE_ARRAY,
+    sign-padded BYTE_ARRAY, FIXED_LEN_BYTE_ARRAY(n)); `m` is its `n`-byte two's complement image.
+    The mirror of `parquetToVariantValue` / `bigEndianToLittleEndian16` reads it as the decimal16
+    holding the same integer: `m` itself when the sign bit (top bit of the FIRST byte) is clear,
+    `m - 256^n + 2^128` when it is set. -/
+theorem ofCol_decimal_any_length (p s n m : Nat) (hn1 : 1 ≤ n) (hn : n ≤ 16) (hm : m < 256 ^ n) :
+    ofCol (.dec16 p s) (.bytes (beN n m)) =
+      some (.dec16 (UInt8.ofNat s) (BitVec.ofNat 128
+        (if m < 128 * 256 ^ (n - 1) then m else m + (256 ^ 16 - 256 ^ n)))) := by
+  have hl : (beN n m).length ≤ 16 := by simp [beN]; exact hn
+  simp only [ofCol, hl, if_true, be16ToNat_short n m hn1 hn hm]
+
+example : ofCol (.dec16 20 2) (.bytes [0x00, 0xFF]) = some (.dec16 2 255#128) := by decide
+example : ofCol (.dec16 20 2) (.bytes [0xCF, 0x00]) = some (.dec16 2 (BitVec.ofInt 128 (-12544))) := by
+  decide
+example : (1 : Nat) ≤ 2 ∧ 2 ≤ 16 ∧ 0xCF00 < 256 ^ 2 := by decide
+
 /-- a partially shredding schema: `a` as int8, `z` as a list of strings, `q` untyped, while the
     example value also has the fields `` and `m` (residual) and a `z` of another type. -/
 def exampleSchema : Schema :=
@@ -174,5 +193,58 @@ def exampleSchema : Schema :=
 
 example : wfS exampleSchema = true := by decide
 example : distinctKeys exampleValue = true := by decide
+
+/-! ## Dremel levels of one shredded group occurrence (`emit` MIRRORS the level arithmetic of
+    `variant_shredded_write.go`, `readG` MIRRORS `variant_shredded_read.go` on column cursors;
+    `g`/`r` = definition level / repetition depth of the variant group in the enclosing schema, i.e.
+    its optional and repeated ancestors; `rep` = repetition level of the occurrence's first cell) -/
+
+/-- **C19 (levels).** Whatever slot a conforming writer chose (`slotFits`: shape only — this covers
+    foreign writers, e.g. matching primitives left in `value`, missing list elements), at any
+    definition level / repetition depth of the enclosing schema, and whatever follows the occurrence
+    in the column streams (`rest`, starting at a repetition level of at most `r`: the next occurrence
+    below the same repeated ancestors, the next row): the level-driven reader consumes exactly the
+    cells of the occurrence and returns what the slot-level reader `unshredR` returns. -/
+theorem read_emit (s : Schema) (hs : lvOK s = true) (sl : Slot) (hf : slotFits s sl = true)
+    (g r rep : Nat) (rest : List Col) (hl : rest.length = numLeaves s) (hcap : capped r rest) :
+    readG s g r (zipApp (emit s g r rep sl) rest) = expect (unshredR s sl) rest :=
+  readG_emit s hs sl g r rep rest hf hl hcap
+
+/-- **C19 (shredding, on column streams).** Reading the cells the writer emitted for `shred s v`,
+    below any optional / repeated ancestors, gives the value written up to field order and leaves
+    the cursors at the next occurrence. -/
+theorem read_emit_shred (s : Schema) (hs : wfS s = true) (hlv : lvOK s = true) (v : Value)
+    (hv : distinctKeys v = true) (g r rep : Nat) (rest : List Col)
+    (hl : rest.length = numLeaves s) (hcap : capped r rest) :
+    ∃ x, readG s g r (zipApp (emit s g r rep (shred s v)) rest) = some (.val x, rest) ∧
+      canon x = canon v := by
+  obtain ⟨x, hx, hc⟩ := shredOK s hs v hv
+  refine ⟨x, ?_, hc⟩
+  rw [read_emit s hlv _ (fits_shred s v) g r rep rest hl hcap, hx]
+  rfl
+
+/-- A run of occurrences (the elements of a repeated ancestor, successive rows), each starting at a
+    repetition level of at most `r`: `n` calls of the reader return the `n` occurrences in order and
+    exhaust the streams — the occurrences are told apart by the levels alone. -/
+theorem readAll_emitAll (s : Schema) (hs : lvOK s = true) (g r : Nat) (occs : List (Nat × Slot))
+    (h : ∀ o ∈ occs, slotFits s o.2 = true ∧ o.1 ≤ r ∧ unshredR s o.2 ≠ .err) :
+    readAll s g r occs.length (emitAll s g r occs) =
+      some (occs.map (fun o => unshredR s o.2), List.replicate (numLeaves s) []) :=
+  readAll_emitAll' s hs g r occs h
+
+example : lvOK exampleSchema = true := by decide
+example : slotFits exampleSchema (shred exampleSchema exampleValue) = true := fits_shred _ _
+example : capped 1 (emit (.list (.prim .int8)) 1 1 1 (shred (.list (.prim .int8)) (.arr []))) :=
+  capped_of_heads (emit_heads _ _ _ _ _ (fits_shred _ _))
+
+/-- the levels of `[1, "x"]` shredded as a list of int8 below one repeated ancestor (`g = r = 1`),
+    second occurrence of its row (`rep = 1`): the second element repeats at level 2, not 1 (seeded
+    change C19-3a), and the string falls back to the element's `value` column. -/
+example : emit (.list (.prim .int8)) 1 1 1
+      (shred (.list (.prim .int8)) (.arr [.prim (.int8 1#8), .prim (.string [0x78])])) =
+    [[⟨1, 1, .null⟩],
+     [⟨3, 1, .null⟩, ⟨4, 2, .val (.prim (.string [0x78]))⟩],
+     [⟨4, 1, .typ (.int8 1#8)⟩, ⟨3, 2, .null⟩]] := by
+  simp [emit, shred, shredList, emitList, matchesP, zipApp, valueCell, numLeaves]
 
 end PqModel.Variant
